@@ -543,6 +543,21 @@ def run(chk):
         for line, var, text in rep:
             chk.violation(r_sg, "%s:%s:%s" % (f["q"], var, text[:30]), "%s: `%s` may be negative (it is counted down, and no test or assignment on this path rules -1 out) where it is used as an unsigned index in `%s`: the conversion wraps to a huge index and the access is outside the container (no exception)" % (f["q"], var, text), f["file"], line)
 
+    # ---- C20.sizebound: front / back / pop on a sequence that may be empty
+    r_sb = chk.rule("C20.sizebound", "a std::vector / deque / string that a function fills itself (declared empty there) or receives by mutable reference is never asked for front() / back() / pop_back() / pop_front() at a point where the lower bound on its size is 0: the bound follows push/pop, clear, resize(n + k), tests of empty() and size() against literals (also inside && / ||), branches that throw or return, loops (bounds survive a loop that only grows the container; an endless loop is left through its breaks); a parameter starts from the smallest bound of its call sites in the same file, and a helper that begins with `if (p.empty()) throw` establishes the bound for its argument", floor=100)
+    from verif import sizebound
+    byfile = {}
+    for f in fx.fns:
+        if f.get("body") and f["file"].startswith(core.REPO + "/opm/") and f["file"].endswith(".cpp"):
+            byfile.setdefault(f["file"], []).append(f)
+    for fl, fns_ in sorted(byfile.items()):
+        for f, rep, tr in sizebound.analyse_unit(fns_):
+            if not tr:
+                continue
+            chk.instance(r_sb, f["q"] + "@%d" % f["l"], sample=dict(function=f["q"], containers=sorted(tr), unguarded=len(rep), in_entry_closure=f["q"] in closure))
+            for line, var, text, lb in rep:
+                chk.violation(r_sb, "%s:%s:%s" % (f["q"], var, text), "%s: `%s` at a point where `%s` may be empty (nothing on this path establishes size() >= 1: no push since the last pop/clear, no test of empty()/size(), no guarding helper): front/back/pop on an empty sequence is undefined - a read or write outside the buffer, no exception" % (f["q"], text, var), f["file"], line)
+
     r_cu = chk.rule("C20.cursor", "token cursors (an index compared with V.size(), used in V[idx] and advanced by the code): every V[idx] is preceded on every path by a test that establishes idx < V.size() since the last advance; where the end is tested with equality the cursor is never advanced from a state that may already be the end", floor=40)
     n_cursors = 0
     for f in fx.fns:
